@@ -901,7 +901,7 @@ func vC19GenCacheArgs(r *rand.Rand) vC19BuildArgs {
 			}
 		}
 		b.nets = good
-		if r.Intn(3) != 0 {
+		if r.Intn(2) != 0 {
 			b.nets = nil
 		}
 	}
@@ -1175,8 +1175,99 @@ func vC19HistoryCase(tr *vC19Trace, r *rand.Rand) {
 				_ = w
 			}
 		}
+		// eligibility-boundary probes (policies with an allow-list): "the client" is one identity whatever
+		// form its transport address arrives in — 4 bytes, or the 16-byte IPv4-mapped form a dual-stack
+		// socket reports.  On a name of its own (so that no earlier shared entry answers first): a listed
+		// client in one form gets an answer scoped to the subnet it sent; an unlisted client sending the
+		// very same option, a client without any option, the listed client in its other form (same subnet:
+		// a scoped hit; sibling subnet: outside) and a listed client of the other family follow.
+		if pol != nil && len(pol.ClientNetworks) > 0 && !shortLived {
+			plan = append(plan, vC19EligibilityProbes(r, pol, gen)...)
+		}
 		return plan
 	}, "cache-history")
+}
+
+// a host inside p (host bits random)
+func vC19HostIn(r *rand.Rand, p netip.Prefix) netip.Addr {
+	b := p.Masked().Addr().AsSlice()
+	for bit := p.Bits(); bit < len(b)*8; bit++ {
+		if r.Intn(2) == 0 {
+			b[bit/8] |= 0x80 >> uint(bit%8)
+		}
+	}
+	a, _ := netip.AddrFromSlice(b)
+	return a
+}
+
+func vC19EligibilityProbes(r *rand.Rand, pol *ecs.Policy, gen func(*dns.EDNS0_SUBNET) ([]dns.EDNS0, bool)) []vC19Planned {
+	var listed, unlisted netip.Addr
+	for try := 0; try < 8 && !listed.IsValid(); try++ {
+		if a := vC19HostIn(r, pol.ClientNetworks[r.Intn(len(pol.ClientNetworks))]).Unmap(); pol.Allows(a) {
+			listed = a
+		}
+	}
+	if !listed.IsValid() {
+		return nil
+	}
+	for try := 0; try < 20 && !unlisted.IsValid(); try++ {
+		if a := vC19RandAddr(r, r.Intn(3) != 0); !pol.Allows(a.Unmap()) {
+			unlisted = a.Unmap()
+		}
+	}
+	if !unlisted.IsValid() {
+		return nil
+	}
+	// the transport forms of one address
+	forms := func(a netip.Addr) []net.IP {
+		if a.Is4() {
+			return []net.IP{net.IP(a.AsSlice()).To16(), net.IP(a.AsSlice())}
+		}
+		return []net.IP{net.IP(a.AsSlice())}
+	}
+	lf := forms(listed)
+	if len(lf) == 2 && r.Intn(4) == 0 { // mostly the mapped form asks first
+		lf[0], lf[1] = lf[1], lf[0]
+	}
+	uf := forms(unlisted)
+	is4 := r.Intn(4) != 0
+	sub := vC19RandAddr(r, is4).AsSlice()
+	fam, narrow := uint16(1), 24
+	if !is4 {
+		fam, narrow = 2, 56
+	}
+	if sub[0] == 0 {
+		sub[0] = 0x20
+	}
+	sib := append([]byte(nil), sub...)
+	sib[(narrow-1)/8] ^= 0x80 >> uint((narrow-1)%8)
+	mkc := func(remote net.IP, addr []byte, mask int) vC19Client {
+		return vC19Client{remote: remote, hasOPT: true, opts: []dns.EDNS0{&dns.EDNS0_SUBNET{Code: dns.EDNS0SUBNET, Family: fam,
+			SourceNetmask: uint8(mask), Address: append(net.IP(nil), addr...)}}}
+	}
+	echo := func(seen *dns.EDNS0_SUBNET) ([]dns.EDNS0, bool) {
+		if seen == nil {
+			return nil, false
+		}
+		return []dns.EDNS0{&dns.EDNS0_SUBNET{Code: dns.EDNS0SUBNET, Family: seen.Family, SourceNetmask: seen.SourceNetmask,
+			SourceScope: seen.SourceNetmask, Address: append(net.IP(nil), seen.Address...)}}, true
+	}
+	cls := []vC19Client{
+		mkc(lf[0], sub, narrow),
+		mkc(uf[r.Intn(len(uf))], sub, narrow),
+		{remote: uf[r.Intn(len(uf))], hasOPT: r.Intn(2) == 0},
+		mkc(lf[len(lf)-1], sub, narrow),
+		mkc(lf[r.Intn(len(lf))], sib, narrow),
+	}
+	if r.Intn(4) == 0 { // the unlisted client first: its shared answer must not reach the listed one's audience bookkeeping either
+		cls[0], cls[1] = cls[1], cls[0]
+	}
+	var out []vC19Planned
+	cd := r.Intn(12) == 0
+	for _, cl := range cls {
+		out = append(out, vC19Planned{cl: cl, qi: 2, cd: cd, upTTL: 300, rfTTL: 300, upGen: echo, rfGen: gen, wire: r.Intn(2) == 0})
+	}
+	return out
 }
 
 func vC19ExecHistory(tr *vC19Trace, b vC19BuildArgs, ecsMax time.Duration, prefetch bool, shortLived bool, mkPlan func(*ecs.Policy, [2]int) []vC19Planned, kind string) {
@@ -1191,7 +1282,7 @@ func vC19ExecHistory(tr *vC19Trace, b vC19BuildArgs, ecsMax time.Duration, prefe
 		floors = [2]int{int(pol.MinScopeV4), int(pol.MinScopeV6)}
 	}
 	plan := mkPlan(pol, floors)
-	names := []string{"www.geo.test.", "cdn.geo.test."}
+	names := []string{"www.geo.test.", "cdn.geo.test.", "edge.geo.test."}
 	var ops []string
 	var desc []map[string]any
 	known := map[int]vC19Answer{}
